@@ -174,7 +174,12 @@ def make_evs(net, sess, initial_station, battery="ideal"):
         else:
             from acnportal.acnsim.models import Linear2StageBattery
             batt = Linear2StageBattery(req * 1.25, req * 0.1, 100.0)
-        ev = EV(s["arr"], s["dep"], req, initial_station(i), sess_id(i), batt)
+        # the driver's *estimate* of the departure is irrelevant to the network and the simulator (only schedulers
+        # read it): vary it so that nothing there can depend on it
+        est = s["dep"] + (-1, 0, 2, 0, 5)[(i * 7 + s["arr"] + s["dep"]) % 5]
+        if est <= s["arr"]:
+            est = s["dep"]
+        ev = EV(s["arr"], s["dep"], req, initial_station(i), sess_id(i), batt, estimated_departure=est)
         net.evs[i] = ev
         evs.append(ev)
     return evs
